@@ -269,8 +269,13 @@ def sql_note(site, K):
 EXPR = Cls('NARROW', minus="`()'\",-;\\")
 
 
-def sql_expression(K):
+EXPR_BS = Cls('NARROW', minus="`()'\",-;")      # with the backslash: an expression is not a string literal, nothing in it is an escape
+
+
+def sql_expression(K, dom=None):
     """expression default: verbatim inside parentheses in .sql, verbatim inside backticks in .dbml"""
+    dom = EXPR_BS if dom == 'bs' else EXPR
+
     def body(a):
         text = text_of(a, 'c', K)
         doc = "Table t {\n  c int [default: `" + text + "`]\n}\n"
@@ -293,7 +298,7 @@ def sql_expression(K):
             return 'expression text changed by render + parse'
         return ''
 
-    return Harness(body, hole_args('c', K, EXPR),
+    return Harness(body, hole_args('c', K, dom),
                    describe=lambda a: {'expr': ''.join(chr(a[f'c{i}']) for i in range(K))}, bounds={'K': K})
 
 
@@ -355,6 +360,7 @@ def instances(tier):
     add('sql_note/table/K2', 'sql_note', {'site': 'table_note_inline', 'K': 2}, 240)
     add('sql_note/column/K2', 'sql_note', {'site': 'column_note', 'K': 2}, 240)
     add('sql_expr/K2', 'sql_expression', {'K': 2}, 240)
+    add('sql_expr/bs/K2', 'sql_expression', {'K': 2, 'dom': 'bs'}, 240)
     add('sql_expr_fixed', 'sql_expr_fixed', {}, 240)
     if not quick:
         for site in SITES:
